@@ -197,6 +197,8 @@ class GenericCallAdapter(Adapter):
                     self.argument(old_value, kw.arg), Unmanaged
                 ) or isinstance(kw.value, ast.JoinedStr):
                     # unmanaged values are never changed
+                    # and are still part of the value
+                    result_kwargs[kw.arg] = self.argument(old_value, kw.arg)
                     continue
 
                 # delete entries
